@@ -25,4 +25,4 @@ def run(ctx):
     return [r_skip.rule_skip_edge(ctx, "C08", statuses=("Skip",)), r_skip.rule_post(ctx, "C08"),
             r_skip.rule_toggle(ctx, "C08"), r_skip.rule_sort_guard(ctx, "C08", must_block=("Skip",)),
             r_directive.rule_directive(ctx, "C08"), r_skip.rule_node_type(ctx, "C08"),
-            r_range.rule_ignore_first(ctx, "C08"), r_skip.rule_toggle_chain(ctx, "C08"), r_skip.rule_field_walkers(ctx, "C08"), r_guard.rule_guard(ctx, "C08")]
+            r_range.rule_ignore_first(ctx, "C08"), r_skip.rule_toggle_chain(ctx, "C08"), r_skip.rule_field_walkers(ctx, "C08"), r_guard.rule_guard(ctx, "C08"), r_range.rule_toggle_ignores_range(ctx, "C08")]
